@@ -133,12 +133,9 @@ add(chain([rc,arc,box,cow],L["u16"]),"deep",False)
 add(chain([option,option,option,option],L["bool"]),"deep",False)
 
 def line(t):
-    s=f'VT::base::<{t.expr}>("{t.expr}", "{t.cls}", {str(t.core).lower()})'
-    if t.cel: s+=f".cel::<{t.expr}>()"
-    elif t.mel: s+=f".mel::<{t.expr}>()"
-    if t.mem: s+=f".mem::<{t.expr}>()"
-    if t.ln: s+=f".len::<{t.expr}>()"
-    return s
+    # optional traits (MaxEncodedLen, ConstEncodedLen, DecodeLength, DecodeWithMemTracking) are probed at
+    # compile time by the vt! macro; the flags computed above are only kept for documentation
+    return f'subjects::vt!({t.expr}, "{t.expr}", "{t.cls}", {str(t.core).lower()})'
 
 NCRATES=6
 HEADER = """// @generated by /verif/gen/gen_registry.py -- do not edit
